@@ -13,20 +13,29 @@ import threading
 import numpy as np
 from harness import common as C
 
-RULE = ('transform cases: every shape in {1..9}^2 (all parity pairs, square and not) several times plus a few up to 24x17, '
-        'each with Q from {1,2,3,1.5,2.37,0.8,(1.7,2.3),(2,1)}, output sizes 1..10 per axis (every parity, smaller and larger '
-        'than the input), shift from {0,+-1,+-2.5,(1.5,-2.25),(0,1)}, direction fwd/inv, input dtype from {complex128, float64, '
-        'complex64, float32, int64, bool}, config.precision 64 (85%) / 32 (15%), 40% of the cases pass Q / samples_out / shift as '
-        'list, ndarray or scalar instead of tuples; methods mdft and czt both run on every case; '
-        'FFT-route cases: focus/unfocus for shapes x Q in {1,2,3,1.5,2.37,1.2}; basis cases: _prepare_czt_basis for all '
-        '(n,M) up to the tier bound; histories: random sequences (<= 40 ops) of dft2/idft2/czt2/iczt2 calls over a pool of '
-        'repeated keys, clear(), precision switches, each result compared with a fresh executor.  Non-trivial = not 1x1->1x1; '
-        'distinct = distinct (item, input) tuples')
+RULE = ('transform cases: every shape in {1..9}^2 (all parity pairs, square and not) several times plus a few up to 24x17; Q half '
+        'from {1,2,3,1.5,2.37,0.8,(1.7,2.3),(2,1)} and half RANDOM REALS in [0.3,5] (scalar or per-axis, all digits random); output '
+        'sizes 1..10 per axis (every parity, smaller and larger than the input); shift from {0,+-1,+-2.5,(1.5,-2.25),(0,1)} or random '
+        'reals in [-4,4]; direction fwd/inv; input dtype from {complex128, float64, complex64, float32, int64, bool}; config.precision '
+        '64 (85%) / 32 (15%); 40% of the cases pass Q / samples_out / shift as list, ndarray or scalar instead of tuples; methods mdft '
+        'and czt both run on every case, on a FRESH executor (pure-function test against the Lean double sum) and on the shared '
+        'executors (the stream is one long history: a difference is reduced to a short culprit history); FFT-route cases: focus/unfocus '
+        'for shapes x Q in {1,2,3,1.5,2.37,1.2}; basis cases: _prepare_czt_basis for all (n,M) up to the tier bound; dispatch cases: '
+        'focus_fixed_sampling / unfocus_fixed_sampling and the Wavefront methods, both engines, random real dx/efl/wvl/out_dx/shift, '
+        'non-square shapes, samples as tuple/list/int, against the textbook sum on the PHYSICAL grid (Q_a = wvl efl/(n_a dx out_dx), '
+        'shift/out_dx computed independently) and the returned Wavefront (dx, space, wavelength, shape); large cases: shapes 30..140 '
+        '(quick) / ..513 (thorough) with random real Q and shifts, NumPy double-sum oracle, size-scaled float32 tolerance; histories: '
+        'systematic pairs (precision, dtype, direction, one-axis variants, argument forms, forward/backprop) and random sequences '
+        '(<= 40 ops) of dft2/idft2/czt2/iczt2/dft2_backprop/idft2_backprop over pools of one-axis variants with random real Q, clear(), '
+        'precision switches, each result compared with a fresh executor and the input array checked unmodified.  Non-trivial = not '
+        '1x1->1x1; distinct = distinct (item, input) tuples')
 ASSUMPTIONS = ['scipy.fft.fft/ifft/fft2/ifft2 compute the (iterated 1-D) DFT sums with the stated normalisation; fftshift/ifftshift '
                'rotate by n//2; next_fast_len(k) >= k (modelled as parameters with that contract)',
                'np.exp / np.sqrt / matmul / broadcasting (trusted); comparison tolerance 1e-9*max(1,|x|max) in float64, '
-               '5e-5 in float32 on standard-normal inputs of size <= 24 (conditioning: unitary-like maps, no cancellation)',
-               'Float evaluation of the Lean model (cos/sin of 2*pi*t in IEEE double) stands for the exact model']
+               'max(5e-5, 5e-7 * longest axis, 8 eps32 * largest chirp phase) in float32 on standard-normal inputs (conditioning: '
+               'unitary-like maps, no cancellation; single-precision phase rounding calibrated on the clean tree)',
+               'Float evaluation of the Lean model (cos/sin of 2*pi*t in IEEE double) stands for the exact model; the large-size tier '
+               'uses a NumPy double sum as oracle (the Lean oracle is an interpreted O(n^4) sum)']
 
 TOL64 = 1e-9
 TOL32 = 5e-5
@@ -191,6 +200,10 @@ def call_impl(method, direction, f, Q, MN, shift, fresh=False, forms=None):
     """run the real transform; returns ndarray or raises"""
     ft, pr, config = _impl()
     Q, MN, shift = apply_forms(Q, MN, shift, forms)
+    if method == 'mdft_bp':
+        # gradient back-propagation entry points: same caches, same keys as dft2 / idft2; `MN` is the shape of the OTHER plane
+        ex = ft.MatrixDFTExecutor() if fresh else ft.mdft
+        return (ex.dft2_backprop if direction < 0 else ex.idft2_backprop)(f, Q, MN, shift)
     if method == 'mdft':
         ex = ft.MatrixDFTExecutor() if fresh else ft.mdft
         fn = ex.dft2 if direction < 0 else ex.idft2
@@ -200,9 +213,32 @@ def call_impl(method, direction, f, Q, MN, shift, fresh=False, forms=None):
     return fn(f, Q, MN, shift)
 
 
+def tol32(nmax):
+    """single precision: rounding of the chirps / bases grows ~linearly with the axis length (measured on the clean tree:
+    czt complex64 vs complex128 rel. error 2e-6 at n=64, 1e-5 at 256, 4.3e-5 at 1024, i.e. ~4e-8 n): 12x that, floor 5e-5"""
+    return max(TOL32, 5e-7 * nmax)
+
+
+def phase_max(case):
+    """largest chirp / kernel phase (radians) the engines form: pi * alpha_a * (max(n_a, M_a) + |shift_a|)^2 per axis.  In single
+    precision these phases are rounded to ~eps32 * phase, which bounds the accuracy of Bluestein's algorithm and of the bases."""
+    if 'shape' not in case or 'samples' not in case or 'Q' not in case:
+        return 0.0
+    (m, n), (M, N) = case['shape'], case['samples']
+    Qy, Qx = qpair(tuple(case['Q']) if isinstance(case['Q'], list) else case['Q'])
+    sh = case.get('shift', [0, 0])
+    return max(np.pi / (m * Qy) * (max(m, M) + abs(sh[1])) ** 2, np.pi / (n * Qx) * (max(n, N) + abs(sh[0])) ** 2)
+
+
 def tol_for(case):
+    """float64: 1e-9.  Single precision: max(5e-5, 5e-7 * longest axis, 8 * eps32 * largest phase).  Calibration on the clean tree
+    (9 600 random single-precision cases, sizes 1..513, Q in [0.3, 5], shifts up to 5): error / (eps32 * largest phase) <= 0.5,
+    one thorough-tier case at 1.2; the factor 8 leaves >= 6x margin while an index / sign / constant error is O(1)."""
     lowp = case.get('precision', 64) == 32 or case.get('dtype') in ('float32', 'complex64')
-    return TOL32 if lowp else TOL64
+    if not lowp:
+        return TOL64
+    sizes = list(case.get('shape', [])) + list(case.get('samples', []))
+    return max(tol32(max(sizes) if sizes else 1), 8 * 1.2e-7 * phase_max(case))
 
 
 def close(a, b, tol):
@@ -222,11 +258,18 @@ def transform_case(ctx_rng, shape, big=False):
     r = ctx_rng
     m, n = shape
     Q = QS[int(r.integers(len(QS)))]
+    if r.random() < 0.5:          # random REAL Q (all digits random), scalar or per-axis, below and above 1
+        q = [float(np.exp(r.uniform(np.log(0.3), np.log(5.0)))) for _ in range(2)]
+        Q = q[0] if r.random() < 0.5 else (q[0], q[1])
     hi = 10 if not big else 26
     M, N = int(r.integers(1, hi + 1)), int(r.integers(1, hi + 1))
     if r.random() < 0.15:
         M, N = m, n
     shift = SHIFTS[int(r.integers(len(SHIFTS)))]
+    if r.random() < 0.4:          # random real shifts (one component may stay zero)
+        shift = (float(r.uniform(-4, 4)), float(r.uniform(-4, 4)) if r.random() < 0.7 else 0.0)
+        if r.random() < 0.3:
+            shift = (shift[1], shift[0])
     dtype = DTYPES[int(r.choice(len(DTYPES), p=[0.35, 0.25, 0.1, 0.1, 0.1, 0.1]))]
     direction = -1 if r.random() < 0.5 else 1
     precision = 32 if r.random() < 0.15 else 64
@@ -270,6 +313,7 @@ def correspondence(ctx):
         _fft_route(ctx, ft, pr, config)
         _czt_basis(ctx, ft, pr, config)
         _dispatch(ctx, ft, pr, config)
+        _large(ctx, ft, pr, config)
         _histories(ctx, ft, pr, config)
     finally:
         config.precision = 64
@@ -311,8 +355,9 @@ def _transforms(ctx, ft, pr, config):
         # input-distribution histograms (one coarse histogram per quantifier of the property text)
         for hk in (f'shape_parity_in->out:{m % 2}{n % 2}->{M % 2}{N % 2}', f'square:{m == n}',
                    f'size_out_vs_in:{"smaller" if M * N < m * n else "equal" if (M, N) == (m, n) else "larger"}',
-                   'Q:' + ('1' if Q == 1 else 'integer' if isinstance(Q, int) else 'per-axis' if isinstance(Q, tuple) else
-                           'fractional<1' if Q < 1 else 'fractional'),
+                   'Q:' + ('1' if Q == 1 else 'integer' if isinstance(Q, int) else
+                           ('per-axis random real' if len(repr(Q[0])) > 6 else 'per-axis') if isinstance(Q, tuple) else
+                           'random real' if len(repr(Q)) > 6 else 'fractional<1' if Q < 1 else 'fractional'),
                    'shift:' + ('zero' if zero_shift else 'fractional' if any(float(s_) != int(s_) for s_ in shift) else 'integer'),
                    f'dtype:{c["dtype"]}', f'precision:{c["precision"]}', f'direction:{"fwd" if c["dir"] < 0 else "inv"}',
                    f'argument_forms:{"tuples" if not c.get("forms") else "list/array/scalar"}'):
@@ -454,7 +499,13 @@ def _czt_basis(ctx, ft, pr, config):
         v = w2vec(row)
         h, b, a = v[:L], v[L:L + n], v[L + n:]
         try:
-            H, bi, ai = ft._prepare_czt_basis(n, M, L, s, alpha, np.dtype('complex128'), True)
+            H, bi, ai = ft._prepare_czt_basis(N=n, M=M, K=L, shift=s, alpha=alpha, dtype=np.dtype('complex128'), norm=True)
+        except TypeError as ex:
+            if 'argument' in str(ex):      # the private helper changed its signature: nothing to compare against
+                ctx.notes.append(f'_prepare_czt_basis signature changed ({ex}); basis stream skipped')
+                break
+            ctx.disagree('czt_basis', case, f'raised {type(ex).__name__}: {str(ex)[:120]}', 'model returns vectors')
+            continue
         except Exception as ex:
             ctx.disagree('czt_basis', case, f'raised {type(ex).__name__}: {str(ex)[:120]}', 'model returns vectors')
             continue
@@ -466,45 +517,156 @@ def _czt_basis(ctx, ft, pr, config):
                 break
 
 
-def _dispatch(ctx, ft, pr, config):
-    """the propagation-level entry points hand the same arguments to both engines: mdft and czt results coincide"""
-    n_cases = ctx.scale(40, 400)
-    for _ in range(n_cases):
-        r = ctx.rng
-        m, n = int(r.integers(2, 10)), int(r.integers(2, 10))
-        M, N = int(r.integers(1, 11)), int(r.integers(1, 11))
-        c = {'shape': [m, n], 'samples': [M, N], 'dx': float(r.uniform(0.5, 2.0)), 'efl': float(r.uniform(50, 200)),
-             'wvl': float(r.uniform(0.4, 1.0)), 'out_dx': float(r.uniform(2.0, 12.0)),
-             'shift': [float(r.choice([0.0, 1.5, -3.0])), float(r.choice([0.0, 2.25, -1.0]))],
-             'seed': int(r.integers(1 << 30)), 'fn': ['focus_fixed_sampling', 'unfocus_fixed_sampling'][int(r.integers(2))]}
-        f = make_input((m, n), 'complex128', c['seed'])
-        ctx.case('dispatch', c, tag=c['fn'])
-        try:
-            fn = getattr(pr, c['fn'])
-            a = fn(f, c['dx'], c['efl'], c['wvl'], c['out_dx'], (M, N), shift=tuple(c['shift']), method='mdft')
-            b = fn(f, c['dx'], c['efl'], c['wvl'], c['out_dx'], (M, N), shift=tuple(c['shift']), method='czt')
-        except Exception as ex:
-            ctx.pred_fail('dispatch', c, f'raised {type(ex).__name__}: {str(ex)[:160]}')
-            continue
-        ok, err = close(np.abs(b), np.abs(a), TOL64)
+def large_case(r, hi):
+    m, n = int(r.integers(30, hi + 1)), int(r.integers(30, hi + 1))
+    M, N = int(r.integers(20, hi + 1)), int(r.integers(20, hi + 1))
+    q = [float(np.exp(r.uniform(np.log(0.5), np.log(3.0)))) for _ in range(2)]
+    return {'shape': [m, n], 'Q': q[0] if r.random() < 0.5 else q, 'samples': [M, N],
+            'shift': [0, 0] if r.random() < 0.4 else [float(r.uniform(-5, 5)), float(r.uniform(-5, 5))],
+            'dir': -1 if r.random() < 0.5 else 1, 'dtype': ['complex128', 'float64', 'complex64', 'float32'][int(r.integers(4))],
+            'precision': 32 if r.random() < 0.2 else 64, 'seed': int(r.integers(1 << 30))}
+
+
+def _large(ctx, ft, pr, config):
+    """realistic sizes (the Lean oracle is an interpreted O(n^4) sum, so the oracle here is the NumPy double sum `spec2_numpy`):
+    catches edits that only act beyond the small-scope sizes; single-precision tolerance scales with the axis length"""
+    hi = ctx.scale(140, 513)
+    for _ in range(ctx.scale(10, 120)):
+        c = large_case(ctx.rng, hi)
+        for method in ('mdft', 'czt'):
+            cc = dict(c, method=method)
+            ctx.case('large', cc, tag=f'{method}/{c["dtype"]}/p{c["precision"]}')
+            ok, detail = check_transform(cc)
+            if not ok:
+                ctx.pred_fail('transform', cc, detail)
+    for _ in range(ctx.scale(6, 60)):
+        c = {'shape': [int(ctx.rng.integers(30, hi // 2 + 1)), int(ctx.rng.integers(30, hi // 2 + 1))],
+             'Q': [1, 2, 1.5, 1.27][int(ctx.rng.integers(4))], 'dtype': ['complex128', 'complex64'][int(ctx.rng.integers(2))],
+             'seed': int(ctx.rng.integers(1 << 30)), 'dir': -1 if ctx.rng.random() < 0.5 else 1}
+        ctx.case('large', c, tag='fft_route')
+        ok, detail = check_fft(c)
         if not ok:
-            ctx.pred_fail('dispatch', c, f"|method='czt'| != |method='mdft'|: max err {err:.3g}")
-        ok, err = close(b, a, TOL64)
+            ctx.pred_fail('fft_route', c, detail)
+
+
+def dispatch_case(r):
+    """fixed-sampling entry points: random REAL spacings / focal length / wavelength / shifts, non-square shapes; the
+    output spacing is chosen so that the per-axis Q lands in [0.4, 4] (conditioning), which keeps every digit random"""
+    m, n = int(r.integers(1, 10)), int(r.integers(1, 10))
+    M, N = int(r.integers(1, 11)), int(r.integers(1, 11))
+    if r.random() < 0.25:
+        N = M
+    dx, efl, wvl = float(r.uniform(0.3, 3.0)), float(r.uniform(30, 300)), float(r.uniform(0.3, 2.0))
+    q0 = float(np.exp(r.uniform(np.log(0.4), np.log(4.0))))
+    out_dx = wvl * efl / (m * dx * q0)
+    x = r.random()
+    if x < 0.35:
+        shift = [0.0, 0.0]
+    elif x < 0.55:
+        shift = [float(r.uniform(-3, 3)) * out_dx, 0.0] if r.random() < 0.5 else [0.0, float(r.uniform(-3, 3)) * out_dx]
+    else:
+        shift = [float(r.uniform(-3, 3)) * out_dx, float(r.uniform(-3, 3)) * out_dx]
+    return {'fn': ['focus_fixed_sampling', 'unfocus_fixed_sampling'][int(r.integers(2))], 'shape': [m, n], 'samples': [M, N],
+            'dx': dx, 'efl': efl, 'wvl': wvl, 'out_dx': out_dx, 'shift': shift,
+            'samples_form': ['tuple', 'list', 'int'][int(r.integers(3))] if M == N else ['tuple', 'list'][int(r.integers(2))],
+            'dtype': ['complex128', 'float64', 'bool'][int(r.choice(3, p=[0.7, 0.2, 0.1]))], 'seed': int(r.integers(1 << 30))}
+
+
+def dispatch_expect(c):
+    """what the physics says the engines must be asked for: per-axis Q = lambda f / (n_a dx_in dx_out), shift in output samples"""
+    m, n = c['shape']
+    Q = tuple(c['wvl'] * c['efl'] / (s * c['dx'] * c['out_dx']) for s in (m, n))
+    sh = (c['shift'][0] / c['out_dx'], c['shift'][1] / c['out_dx'])
+    return Q, sh, (-1 if c['fn'].startswith('focus') else 1)
+
+
+def dispatch_outputs(c):
+    """every way of making the call: function / Wavefront method x mdft / czt; returns [(label, array or exception, wavefront or None)]"""
+    ft, pr, config = _impl()
+    f = make_input(tuple(c['shape']), c['dtype'], c['seed'])
+    M, N = c['samples']
+    samples = {'tuple': (M, N), 'list': [M, N], 'int': M}[c.get('samples_form', 'tuple')]
+    fn = getattr(pr, c['fn'])
+    space = 'pupil' if c['fn'].startswith('focus') else 'psf'
+    outs = []
+    for method in ('mdft', 'czt'):
+        try:
+            outs.append((f'{c["fn"]}(method={method!r})',
+                         fn(f, c['dx'], c['efl'], c['wvl'], c['out_dx'], samples, shift=tuple(c['shift']), method=method), None))
+        except Exception as ex:
+            outs.append((f'{c["fn"]}(method={method!r})', ex, None))
+        try:
+            wf = pr.Wavefront(np.asarray(f, dtype=complex), c['wvl'], c['dx'], space=space)
+            w = getattr(wf, c['fn'])(c['efl'], c['out_dx'], samples, shift=tuple(c['shift']), method=method)
+            outs.append((f'Wavefront.{c["fn"]}(method={method!r})', w.data, w))
+        except Exception as ex:
+            outs.append((f'Wavefront.{c["fn"]}(method={method!r})', ex, None))
+    return f, outs
+
+
+def check_dispatch(c, verbose=False, oracle=None):
+    """True iff every entry point returns the textbook sum on the PHYSICAL grid (complex at zero shift, modulus otherwise)
+    and the returned Wavefront carries the requested spacing / the right space / the wavelength"""
+    f, outs = dispatch_outputs(c)
+    Q, sh, d = dispatch_expect(c)
+    M, N = c['samples']
+    sp = oracle if oracle is not None else spec2_numpy(f, Q, (M, N), sh, d)
+    zero = c['shift'][0] == 0 and c['shift'][1] == 0
+    for label, out, w in outs:
+        if isinstance(out, Exception):
+            return False, f'{label} raised {type(out).__name__}: {str(out)[:140]}'
+        ok, err = close(out, sp, TOL64) if zero else close(np.abs(out), np.abs(sp), TOL64)
+        if verbose:
+            print(f'  {label}: max error against the textbook sum on the physical grid (Q = {Q[0]:.4g}, {Q[1]:.4g}; shift = '
+                  f'{sh[0]:.4g}, {sh[1]:.4g} samples) {err:.3g}')
+        if not ok:
+            return False, (f'{label}: {"result" if zero else "|result|"} != textbook sum with Q_a = wvl*efl/(n_a*dx*out_dx), '
+                           f'shift/out_dx: max err {err:.3g}')
+        if w is not None:
+            want_space = 'psf' if c['fn'].startswith('focus') else 'pupil'
+            if not (w.dx == c['out_dx'] and w.space == want_space and w.wavelength == c['wvl'] and w.data.shape == (M, N)):
+                return False, f'{label}: returned Wavefront has dx={w.dx}, space={w.space!r}, shape={w.data.shape}'
+    return True, ''
+
+
+def _dispatch(ctx, ft, pr, config):
+    """the propagation-level entry points (functions and Wavefront methods, both engines) against the textbook sum on the
+    PHYSICAL grid: per-axis Q and shift conversion are computed independently here (oracle: Lean `spec2`)"""
+    cases = [dispatch_case(ctx.rng) for _ in range(ctx.scale(80, 800))]
+    lines = []
+    for c in cases:
+        Q, sh, d = dispatch_expect(c)
+        m, n = c['shape']
+        M, N = c['samples']
+        f = make_input((m, n), c['dtype'], c['seed'])
+        lines.append(f'spec2 {d} {m} {n} {M} {N} {C.f2w(Q[0])} {C.f2w(Q[1])} {C.f2w(sh[1])} {C.f2w(sh[0])} {arr2w(f)}')
+    rep = driver_parallel(lines)
+    for c, row in zip(cases, rep):
+        m, n = c['shape']
+        M, N = c['samples']
+        zero = c['shift'] == [0.0, 0.0]
+        ctx.case('dispatch', c, nontrivial=not (m == n == M == N == 1),
+                 tag=f'{c["fn"]}/{"sq" if m == n else "ns"}/{"s0" if zero else "s"}/{c["samples_form"]}')
+        ok, detail = check_dispatch(c, oracle=w2arr(row, M, N))
+        if not ok:
+            ctx.pred_fail('dispatch', c, detail)
+            continue
+        # model: czt2 == dft2 sample for sample (including the phase under a shift)
+        f, outs = dispatch_outputs(c)
+        ok, err = close(outs[2][1], outs[0][1], TOL64)
         if not ok:
             ctx.disagree('dispatch', c, f'czt - mdft = {err:.3g}', 'model: czt2 == dft2 sample for sample')
-        # the Wavefront methods are thin wrappers over the same functions
+        # the Wavefront.focus / unfocus wrappers (FFT route)
         try:
             space = 'pupil' if c['fn'].startswith('focus') else 'psf'
-            wf = pr.Wavefront(f, c['wvl'], c['dx'], space=space)
-            w = getattr(wf, c['fn'])(c['efl'], c['out_dx'], (M, N), shift=tuple(c['shift']), method='czt')
-            q = [1, 2, 1.5][int(r.integers(3))]
+            wf = pr.Wavefront(np.asarray(f, dtype=complex), c['wvl'], c['dx'], space=space)
+            q = [1, 2, 1.5][int(ctx.rng.integers(3))]
             w2 = (wf.focus if space == 'pupil' else wf.unfocus)(c['efl'], Q=q)
-            ref2 = (pr.focus if space == 'pupil' else pr.unfocus)(f, q)
+            ref2 = (pr.focus if space == 'pupil' else pr.unfocus)(np.asarray(f, dtype=complex), q)
+            if not close(w2.data, ref2, TOL64)[0] or w2.space != ('psf' if space == 'pupil' else 'pupil'):
+                ctx.pred_fail('dispatch', c, 'Wavefront.focus / unfocus differ from the functions they wrap')
         except Exception as ex:
-            ctx.pred_fail('dispatch', c, f'Wavefront.{c["fn"]} raised {type(ex).__name__}: {str(ex)[:160]}')
-            continue
-        if not close(w.data, b, TOL64)[0] or not close(w2.data, ref2, TOL64)[0]:
-            ctx.pred_fail('dispatch', c, f'Wavefront.{c["fn"]} / Wavefront.focus differ from the functions they wrap')
+            ctx.pred_fail('dispatch', c, f'Wavefront.focus/unfocus raised {type(ex).__name__}: {str(ex)[:160]}')
 
 
 # ------------------------------------------------------------------------------------------------
@@ -523,9 +685,11 @@ def gen_history(r, length):
     """ops over a small pool of argument sets so that keys repeat; clear() and precision switches interleaved"""
     pool = []
     shp = (int(r.integers(1, 8)), int(r.integers(1, 8)))
-    pool.append({'shape': list(shp), 'Q': [1, 2, 1.5, (1.7, 2.3)][int(r.integers(4))],
+    rq = float(np.exp(r.uniform(np.log(0.4), np.log(4.0))))
+    pool.append({'shape': list(shp), 'Q': [1, 2, 1.5, (1.7, 2.3), rq, (rq, 1.0 + rq / 3)][int(r.integers(6))],
                  'samples': [int(r.integers(1, 9)), int(r.integers(1, 9))],
-                 'shift': list(SHIFTS[int(r.integers(len(SHIFTS)))])})
+                 'shift': list(SHIFTS[int(r.integers(len(SHIFTS)))]) if r.random() < 0.6
+                 else [float(r.uniform(-3, 3)), float(r.uniform(-3, 3))]})
     for _ in range(int(r.integers(1, 5))):
         if r.random() < 0.3:          # an unrelated argument set
             shp = (int(r.integers(1, 8)), int(r.integers(1, 8)))
@@ -558,7 +722,8 @@ def gen_history(r, length):
             ops.append({'op': 'precision', 'value': [32, 64][int(r.integers(2))]})
         else:
             p = pool[int(r.integers(len(pool)))]
-            ops.append(dict(p, op='call', method=['mdft', 'czt'][int(r.integers(2))], dir=-1 if r.random() < 0.5 else 1,
+            ops.append(dict(p, op='call', method=['mdft', 'czt', 'mdft_bp'][int(r.choice(3, p=[0.42, 0.42, 0.16]))],
+                            dir=-1 if r.random() < 0.5 else 1,
                             dtype=['complex128', 'float64', 'complex64'][int(r.choice(3, p=[0.6, 0.25, 0.15]))],
                             seed=int(r.integers(1 << 30))))
     return ops
@@ -581,15 +746,28 @@ def run_history(ops, ft, config, collect=None):
             config.precision = prec
         else:
             shp, Q, MN, shift = case_args(op)
+            if op['method'] == 'mdft_bp':
+                # fbar lives in the output plane (shape `samples`); the other plane's shape is the `samples_in` argument
+                # (handed over as an int when that plane is square, on every other case)
+                shp, MN = MN, (shp[0] if (shp[0] == shp[1] and op['seed'] % 2 == 0) else shp)
             f = make_input(shp, op['dtype'], op['seed'])
+            f0 = f.copy()
             try:
-                got = call_impl(op['method'], op['dir'], f, Q, MN, shift, forms=op.get('forms'))
-                want = call_impl(op['method'], op['dir'], f, Q, MN, shift, fresh=True, forms=op.get('forms'))
+                if op['method'] == 'mdft_bp' and not isinstance(MN, tuple):
+                    ex_ = ft.mdft
+                    got = (ex_.dft2_backprop if op['dir'] < 0 else ex_.idft2_backprop)(f, Q, MN, shift)
+                    ex_ = ft.MatrixDFTExecutor()
+                    want = (ex_.dft2_backprop if op['dir'] < 0 else ex_.idft2_backprop)(f, Q, MN, shift)
+                else:
+                    got = call_impl(op['method'], op['dir'], f, Q, MN, shift, forms=op.get('forms'))
+                    want = call_impl(op['method'], op['dir'], f, Q, MN, shift, fresh=True, forms=op.get('forms'))
+                if not np.array_equal(f, f0):
+                    fail = fail or f'op {idx} ({op["method"]}): the input array was modified in place'
             except Exception as ex:
                 fail = fail or f'op {idx}: raised {type(ex).__name__}: {str(ex)[:120]}'
                 sizes.append((len(ft.mdft.Ein), len(ft.czt.components)))
                 continue
-            lowp = prec == 32 if op['method'] == 'mdft' else op['dtype'] == 'complex64'
+            lowp = prec == 32 if op['method'] in ('mdft', 'mdft_bp') else op['dtype'] == 'complex64'
             ok, err = close(got, want, 1e-5 if lowp else 1e-10)
             if got.dtype != want.dtype:
                 fail = fail or f'op {idx}: dtype {got.dtype} on the shared executor, {want.dtype} on a fresh one'
@@ -627,6 +805,10 @@ def systematic_histories():
                 b = dict(a, forms=fm)
                 hs.append([a, b])
                 hs.append([b, a])
+        if method == 'mdft':
+            for d in (-1, 1):
+                hs.append([dict(base, op='call', method='mdft', dir=d), dict(base, op='call', method='mdft_bp', dir=d)])
+                hs.append([dict(base, op='call', method='mdft_bp', dir=d), dict(base, op='call', method='mdft', dir=d)])
         variants = []
         for ax in (0, 1):
             for key, val in (('shape', 6), ('samples', 7), ('shift', 1.5), ('Q', 2.37)):
@@ -661,7 +843,7 @@ def _histories(ctx, ft, pr, config):
                     toks.append(None)
                 elif op['op'] == 'clear':
                     toks.append('C' if op['which'] == which else None)
-                elif op['method'] == which:
+                elif op['method'] == which or (which == 'mdft' and op['method'] == 'mdft_bp'):
                     shp, Q, MN, shift = case_args(op)
                     dt = str(make_input((1, 1), op['dtype'], 0).dtype)
                     key = _norm_key(which, op['dir'] if which == 'mdft' else -1, shp, Q, MN, shift, prec, dt)
@@ -680,9 +862,16 @@ def _histories(ctx, ft, pr, config):
                 cur = int(next(it).split(':')[1])
             have = sizes[idx][0 if which == 'mdft' else 1]
             if have != cur:
-                ctx.disagree('cache', {'ops': ops, 'executor': which}, f'{have} cached entries after op {idx}',
-                             f'{cur} (model: one entry per distinct key incl. precision/dtype)')
+                # the granularity of the cache is an implementation choice (per-axis caching, bounded caches ...): the property
+                # speaks about RESULTS, which the comparison with a fresh executor above covers; record, do not alarm
+                msg = (f'cache model: executor {which} holds {have} entries where the model (one entry per distinct key incl. '
+                       f'precision/dtype) has {cur}')
+                if msg not in ctx.notes and len(ctx.notes) < 20:
+                    ctx.notes.append(msg)
+                ctx.hist['cache_model:entry_count_differs'] += 1
                 break
+        else:
+            ctx.hist['cache_model:entry_count_agrees'] += 1
 
 
 # ------------------------------------------------------------------------------------------------
@@ -739,7 +928,7 @@ def check_fft(c, verbose=False):
     if (M, N) != (int(np.ceil(m * c['Q'])), int(np.ceil(n * c['Q']))):
         return False, f'padded shape {M, N}'
     sp = spec2_numpy(f, (M / m, N / n), (M, N), (0, 0), c['dir'])
-    ok, err = close(out, sp, tol_for(c))
+    ok, err = close(out, sp, tol_for(dict(c, samples=[M, N])))
     if verbose:
         print(f'  {"focus" if c["dir"] < 0 else "unfocus"} {m}x{n} Q={c["Q"]} -> {M}x{N}: max error against the textbook sum {err:.3g}')
     return ok, f'padded FFT != textbook sum on its own grid: max err {err:.3g}'
@@ -849,6 +1038,8 @@ def _violates(inp):
         return not check_fft(c)[0]
     if item == 'history':
         return run_history(c['ops'], ft, config)[0] is not None
+    if item == 'dispatch':
+        return not check_dispatch(c)[0]
     return False
 
 
@@ -880,16 +1071,9 @@ def replay(inp):
         print('  ', fail or 'every call returned what a fresh executor returns')
         return fail is not None
     if item == 'dispatch':
-        f = make_input(tuple(c['shape']), 'complex128', c['seed'])
-        fn = getattr(pr, c['fn'])
-        try:
-            a = fn(f, c['dx'], c['efl'], c['wvl'], c['out_dx'], tuple(c['samples']), shift=tuple(c['shift']), method='mdft')
-            b = fn(f, c['dx'], c['efl'], c['wvl'], c['out_dx'], tuple(c['samples']), shift=tuple(c['shift']), method='czt')
-        except Exception as ex:
-            print('  raised', type(ex).__name__, ex)
-            return True
-        ok, err = close(np.abs(b), np.abs(a), TOL64)
-        print(f'  | |czt| - |mdft| | max = {err:.3g}')
+        ok, detail = check_dispatch(c, verbose=True)
+        if not ok:
+            print(' ', detail)
         return not ok
     print('no replay routine for item', item)
     return False
@@ -898,28 +1082,30 @@ def replay(inp):
 MANIFEST_ENTRY = {
     'technique': 'Lean 4 proofs over an abstract Fourier character (Bluestein identity, wrap-around lemma, FFT convolution '
                  'theorem from derived root-of-unity orthogonality, index reindexing mod N, cache invariant by induction over '
-                 'op lists) on translator-generated glue + differential correspondence of the executable model with prysm',
-    'text': ('PROVED for all inputs (every shape m x n, output size M x N, per-axis Q, real shift, input array, FFT lengths '
-             'K >= m+M-1, L >= n+N-1; kernel e any map with e(a+b)=e(a)e(b), e(0)=1, e(k)=1 for integer k, e(t)=1 only at '
-             'integers; instantiated with exp(-2 pi i t)): (1) the matrix triple product as _setup_bases builds it equals a '
-             'unit phase (explicit, depending on the output sample only, =1 at zero shift) times the textbook sum; (2) the '
-             'Bluestein chirp-Z pipeline exactly as czt2 computes it (pre-chirp, zero-padded fft2 as iterated 1-D DFT sums, '
-             'kernel vector h with its two filled segments and zero gap, ifft2, crop, post-chirp) equals the triple product '
-             'sample for sample, hence the textbook sum up to the same phase; iczt2 = conj.czt2.conj equals the inverse '
-             'transform; (3) fftshift(fft2(ifftshift(pad2d(x)), ortho)) equals the textbook sum on the grid Q_eff = N\'/n for '
-             'every padded size >= the input, any parities; (4) corollary: the three routes agree on the FFT grid; (5) for '
-             'every sequence of earlier calls and clear()s an executor call uses exactly the bases a fresh executor builds, '
-             'given that everything read while building is a key field. TRANSLATED from the current source and proved equal to '
-             'the model / to have the needed property: start, arange bounds and the three slice bounds of h in '
-             '_prepare_czt_basis; shift and chirp signs; which shape/samples/shift/Q component feeds the row and column bases '
-             'of both executors (resolved through the cache-key tuple); the chirp constants and exponent scalars as rational '
-             'functions; norms; FFT-length arguments; key fields and build-time reads of both executors; pad2d offset; the '
-             'shape of focus/unfocus. MODELLED AND COMPARED (600 / 12000 transform cases + FFT-route, basis-vector, dispatch '
-             'and history cases per run): the NumPy execution of all of the above against the Lean model evaluated in Float, '
-             'and the property predicates on the real outputs against the model\'s direct double sum.'),
+                 'op lists) about model routes whose signs / statement order / flags / wiring / constants are translator-generated '
+                 'parameters + differential correspondence of the executable model with prysm',
+    'text': ('PROVED for all inputs (every shape m x n, output size M x N, per-axis Q, real shift, input array, FFT lengths that '
+             'next_fast_len may return for the generated length arguments; kernel e any map with e(a+b)=e(a)e(b), e(0)=1, e(k)=1 for '
+             'integer k, e(t)=1 only at integers; instantiated with exp(-2 pi i t)): (1) dft2 / idft2 with the kernel sign, fwd flags, '
+             'wiring, exponent scalars and norms of the current source equal an explicit unit phase (output-sample dependent only, =1 at '
+             'zero shift) times the forward / inverse textbook sum; equal squared modulus for every shift; (2) czt2 as an interpreter '
+             'over the GENERATED list of its statements (pre-chirp, zero-padded fft2 as iterated 1-D DFT sums, kernel product, ifft2, '
+             'crop, post-chirp) with the generated chirp / shift signs, index glue, wiring and chirp constants equals dft2 sample for '
+             'sample; iczt2 = conj.czt2.conj equals idft2; (3) focus / unfocus with the generated shift order, norm, transform and pad '
+             'offset equal the forward / inverse textbook sum on the grid Q_eff = N\'/n for every padded size >= the input; the padded '
+             'length is ceil(nQ), >= n for Q >= 1 and = nQ when that is an integer (only then do the three routes share a grid; '
+             'corollary routes_agree); (4) with the Q and shift conversions translated from focus_fixed_sampling / '
+             'unfocus_fixed_sampling the kernel exponent of both engines is the physical x xi/(lambda f), per axis; (5) for every '
+             'sequence of earlier calls and clear()s an executor call uses exactly the bases a fresh executor builds, given that '
+             'everything read while building (key components, config.*, hidden self.*) is a key field - an abstract machine: key '
+             'normalisation in _key and the two-dictionary layout are outside it. Every translated obligation is consumed by a property '
+             'theorem. MODELLED AND COMPARED each run: NumPy execution of all routes (incl. dtype promotion, argument forms, dispatch '
+             'layer, Wavefront wrappers, backprop entry points, histories) against the Lean model evaluated in Float and the Lean '
+             'double-sum oracle; sizes beyond 26 only against a NumPy double sum.'),
     'note': ('Partial in these respects: scipy.fft is a parameter with the contract "computes the DFT sum" (not verified); '
-             'floating-point rounding is not covered (float64 compared at 1e-9, float32 at 5e-5); the cache theorem is over an '
-             'abstract state machine whose key/read sets are extracted from the AST (dict semantics of Python trusted); '
-             'cupy/torch backends not covered. Trusted: Lean kernel, Mathlib, the ast->Lean translator (validated by executing '
-             'the generated glue against _prepare_czt_basis on an exhaustive small domain each run).'),
+             'floating-point rounding is not covered (float64 compared at 1e-9, float32 at max(5e-5, 5e-7 n)); the cache theorem is over '
+             'an abstract single-dictionary machine whose key/read sets are extracted from the AST (dict semantics of Python trusted); '
+             'the driver runs the parameterised routes at the hand reference values, the generated values are tied to them by the '
+             'gen_* theorems; an unrecognised source shape degrades the item to the hand value (TIE-DEGRADED line, widened sweep); '
+             'cupy/torch backends not covered; focus(f, Q<1) raises (pad2d cannot shrink) - outside the FFT route as stated.'),
 }
